@@ -251,12 +251,19 @@ example (h : SplitAgree "sub/hello world.TXT") : OpOk up0 root0 (.openFile [] "s
         Names.fold up0 (entryNameL e) = Names.fold up0 q.toList ∧ Names.validateLongName q = .ok () ∧
           isDotName q = false) → QAll up0 root0 q := by
     intro q h1 h2
-    unfold QAll root0 sub0
-    rw [addEntry_dir, all_dir]
+    have hshape : Shape ([] : List (List Nat)) := (dirWf_nil up0).shape
+    have ad1 := addEntry_dir hshape (Names.encodeUtf16 "sub".toList) sfnSub sub0 [] (by decide) (by decide)
+      (by decide) (by decide) (by decide +kernel)
+    have ad2 := addEntry_dir hshape (Names.encodeUtf16 "Hello World.txt".toList) sfnHello (.file []) [] (by decide)
+      (by decide) (by decide) (by decide) (by decide +kernel)
+    unfold QAll root0
+    rw [ad1, all_dir]
     refine ⟨by unfold QHit; rw [hl1]; exact h1, ?_⟩
     intro x hx
     simp only [List.nil_append, List.mem_singleton] at hx
-    rw [hx, addEntry_dir, all_dir]
+    rw [hx]
+    unfold sub0
+    rw [ad2, all_dir]
     refine ⟨by unfold QHit; rw [hl2]; exact h2, ?_⟩
     intro y hy
     simp only [List.nil_append, List.mem_singleton] at hy
